@@ -15,7 +15,12 @@
 use crate::errors::{Error, Result};
 use crate::types::SequenceId;
 use std::collections::{HashMap, hash_map::Entry};
+#[cfg(edp_verif)]
+use std::time::Duration;
+#[cfg(not(edp_verif))]
 use std::time::{Duration, Instant};
+#[cfg(edp_verif)]
+use tokio::time::Instant;
 use tracing::trace;
 
 pub const DIST_FRAG_HEADER: u8 = 69;
